@@ -110,6 +110,23 @@ def run(tier):
                     chk.fail('input:rejects-valid-chunk-size', case, f'write raised {res["error"]}')
                 elif res['data'] != data:
                     chk.fail('input:bytes-depend-on-chunk-size', case, 'file differs from the one written in a single chunk')
+            # one DLISFile written several times with different chunk sizes: nothing carried over from a write may matter
+            st_b, b = call(filegen.build, spec)
+            if st_b == 'ok':
+                for k, (ic, oc) in enumerate([(1, vrl), (None, 2**20), (2, vrl + 2), (max(nrows - 1, 1), 2 * vrl), (None, vrl)]):
+                    s2 = dict(spec)
+                    s2['write'] = dict(spec['write'], input_chunk_size=ic, output_chunk_size=oc)
+                    res = filegen.write(s2, tmp, built=b)
+                    case = {'spec_index': si, 'spec': filegen.describe(spec), 'write_number': k + 1,
+                            'input_chunk_size': ic, 'output_chunk_size': oc, 'same_DLISFile_object': True}
+                    chk.case('same-object-rewrites', nontrivial_key=(si, 'rw', k))
+                    if res['status'] != 'ok':
+                        chk.fail('rewrite:raises', case, f'write #{k + 1} of the same DLISFile raised {res["error"]}')
+                        break
+                    if res['data'] != data:
+                        chk.fail('rewrite:bytes-depend-on-chunk-size', case,
+                                 f'write #{k + 1} of the same DLISFile differs from a fresh single-chunk write')
+                        break
             for ic in (0, -1, -2, -nrows):
                 s2 = dict(spec)
                 s2['write'] = dict(spec['write'], input_chunk_size=ic)
